@@ -19,7 +19,7 @@ import (
 
 var run *fw.Run
 
-var masks = []waiter.EventMask{waiter.EventIn, waiter.EventOut, waiter.EventIn | waiter.EventOut}
+var masks = []waiter.EventMask{waiter.EventIn, waiter.EventOut, waiter.EventIn | waiter.EventOut, 0} // 0: registered, interested in nothing
 var nmasks = []waiter.EventMask{waiter.EventIn, waiter.EventOut, waiter.EventIn | waiter.EventOut, waiter.EventErr}
 
 type op struct {
@@ -113,7 +113,8 @@ func replaySeq(seq []op, nent int) (msg string) {
 	for i := range ents {
 		ents[i] = waiter.Entry{Callback: &cb{i, col}}
 	}
-	ref := make([]waiter.EventMask, nent) // 0 = not registered
+	ref := make([]waiter.EventMask, nent) // registered mask (may be empty: registered, interested in nothing)
+	reg := make([]bool, nent)
 	// structure walks the intrusive list from every registered entry with a step
 	// bound: it must reach the end within nent steps and pass only registered entries.
 	structure := func() string {
@@ -122,7 +123,7 @@ func replaySeq(seq []op, nent int) (msg string) {
 			idx[&ents[i]] = i
 		}
 		for i := range ents {
-			if ref[i] == 0 {
+			if !reg[i] {
 				continue
 			}
 			for _, dir := range []string{"next", "prev"} {
@@ -142,7 +143,7 @@ func replaySeq(seq []op, nent int) (msg string) {
 						break
 					}
 					j, known := idx[e]
-					if !known || ref[j] == 0 {
+					if !known || !reg[j] {
 						return fmt.Sprintf("an unregistered entry is still linked into the queue (reached via %s from entry %d)", dir, i)
 					}
 					cur = e
@@ -160,10 +161,10 @@ func replaySeq(seq []op, nent int) (msg string) {
 		switch o.Kind {
 		case "reg":
 			q.EventRegister(&ents[o.Entry], masks[o.Mask])
-			ref[o.Entry] = masks[o.Mask]
+			ref[o.Entry], reg[o.Entry] = masks[o.Mask], true
 		case "unreg":
 			q.EventUnregister(&ents[o.Entry])
-			ref[o.Entry] = 0
+			ref[o.Entry], reg[o.Entry] = 0, false
 		}
 		if m := structure(); m != "" {
 			return fmt.Sprintf("step %d %+v: %s", si, o, m)
@@ -190,9 +191,9 @@ func replaySeq(seq []op, nent int) (msg string) {
 		}
 		var all waiter.EventMask
 		empty := true
-		for _, m := range ref {
+		for i, m := range ref {
 			all |= m
-			if m != 0 {
+			if reg[i] {
 				empty = false
 			}
 		}
@@ -628,7 +629,7 @@ func TestC17(t *testing.T) {
 	if !res.Done {
 		run.ChildCrashed(res, "C17/concurrent", "concurrent phase")
 	}
-	code := run.Finish("sequential: every legal sequence up to sequential_depth over 3 entries x 3 registration masks x 4 notify masks (an entry is registered at most once at a time), callbacks per Notify compared with the reference set, Events()/IsEmpty() after every step; concurrent (-race build): 2-6 goroutines, 4 entries each owned by one goroutine, 3-7 ops each, callbacks attributed to the Notify call by goroutine id, history checked by porcupine against the set specification; channel entries: token present after Notify, notifiers racing a draining waiter and a churning neighbour entry. distinct = enumerated sequences (capped at 200000 in the count) + distinct call/return interleavings",
+	code := run.Finish("sequential: every legal sequence up to sequential_depth over 3 entries x 4 registration masks (incl. the empty one) x 4 notify masks (an entry is registered at most once at a time), callbacks per Notify compared with the reference set, Events()/IsEmpty() after every step; concurrent (-race build): 2-6 goroutines, 4 entries each owned by one goroutine, 3-7 ops each, callbacks attributed to the Notify call by goroutine id, history checked by porcupine against the set specification; channel entries: token present after Notify, notifiers racing a draining waiter and a churning neighbour entry. distinct = enumerated sequences (capped at 200000 in the count) + distinct call/return interleavings",
 		[]string{"registering an entry that is already registered, or unregistering one that is not, is outside the domain (the intrusive list gives it no meaning)", "callbacks run synchronously on the notifier's goroutine (attribution by goroutine id)"})
 	os.Exit(code)
 }
